@@ -769,8 +769,10 @@ impl<'a> Iterator for ReplicasOrderedNTSIterator<'a> {
                 let nodes_on_ring = locator.replication_data.get_global_ring().ring_range(token);
                 for node in nodes_on_ring {
                     // If this node's DC has some replicas in this NTS...
+                    // (A datacenter may be listed with a replication factor of 0,
+                    // in which case none of its nodes is a replica.)
                     if let Some(dc) = &node.datacenter
-                        && datacenter_repfactors.get(dc).is_some()
+                        && datacenter_repfactors.get(dc).is_some_and(|rf| *rf > 0)
                     {
                         // ...then this node must be the primary replica.
                         self.inner = ReplicasOrderedNTSIteratorInner::Picked {
